@@ -245,6 +245,13 @@ func runRaceCase(f []string) string {
 		gun += fmt.Sprintf(", answlog: {enabled: true, path: %q, filter: all}, httptrace: {dump: true, trace: true}}", answPath)
 		// a provider middleware: it rewrites every request inside Acquire, i.e. on the instances' goroutines
 		ammo = fmt.Sprintf("{type: uri, file: /race.uri, limit: %d, middlewares: [{type: header/date, location: UTC, headerName: X-Date}]}", nshots)
+		if variant == "1" {
+			// preloaded ammo: the SAME decoded ammo (header value slices included) reach all instances again and again,
+			// and they already carry the headers the middlewares set (file: [X-Date]; config: X-Cfg with 17 values, the first count
+			// for which a copy made by append has spare capacity)
+			_ = afero.WriteFile(mfs, "/race.uri", []byte("[Host: example.org]\n[X-Test: 1]\n[X-Date: Thu, 01 Jan 1970 00:00:00 GMT]\n/a tag1\n/b?x=1 tag2\n[X-Test: 2]\n/c\n"), 0o644)
+			ammo = fmt.Sprintf("{type: uri, file: /race.uri, limit: %d, preload: true, headers: [%s'[Accept: */*]'], middlewares: [{type: header/date, location: UTC, headerName: X-Date}, {type: header/date, headerName: X-Cfg}]}", nshots, strings.Repeat("'[X-Cfg: v]', ", 17))
+		}
 		hs.Record = true
 	case "httpscen":
 		_ = afero.WriteFile(mfs, "/race-http.yaml", []byte(httpScenarioFile(variant)), 0o644)
